@@ -50,7 +50,7 @@ def _doc_pair(job):
 
 def run(tier: str) -> int:
     chk = Check("C08", tier, "model_checking")
-    bounds = [(FULL, 4), (SMALL, 6), (PARA, 7)] if tier == "quick" else [(FULL, 5), (SMALL, 8), (PARA, 8)]
+    bounds = [(FULL, 4), (SMALL, 6), (PARA, 7)] if tier == "quick" else [(FULL, 5), (SMALL, 7), (PARA, 8)]     # 6^8 exceeds TLC's limit of 10^6 elements for an enumerated set
     chk.rule = ("string family: every string over the 11-symbol alphabet up to length " + str(bounds[0][1]) + ", over the 6-symbol quote/word alphabet up "
                 "to " + str(bounds[1][1]) + " and over the paragraph alphabet up to " + str(bounds[2][1]) + "; document family: " + str(len(typo.QUOTE_DOCS)) +
                 " quote-bearing documents (+ corpus) x other option settings; non-trivial = string whose real result differs from the input, or "
